@@ -144,9 +144,22 @@ func funcJson(kv KVPair, args []Expression, ctx *ExecuteCtx) (any, error) {
 	if !ok {
 		return nil, NewExecuteError(args[0].GetPos(), "Cannot convert to byte array")
 	}
-	ret := make(JSON)
-	json.Unmarshal(jsonData, &ret)
-	return ret, nil
+	return parseJSONDocument(jsonData), nil
+}
+
+// parseJSONDocument is the value of json(text): the members of a JSON object,
+// the list of a JSON array (len() counts it, [n] indexes it, the distance
+// functions read it), and no members for anything else
+func parseJSONDocument(jsonData []byte) any {
+	var doc any
+	json.Unmarshal(jsonData, &doc)
+	switch val := doc.(type) {
+	case map[string]any:
+		return JSON(val)
+	case []any:
+		return val
+	}
+	return make(JSON)
 }
 
 func funcSplit(kv KVPair, args []Expression, ctx *ExecuteCtx) (any, error) {
